@@ -9,7 +9,7 @@ VERIF = os.path.dirname(os.path.abspath(__file__))
 # id -> (level category, engine, technique, level text, level note, design ref)
 CHECKS = {
     "C01": ("exploration", "E-ENV",
-            "stateless exhaustive exploration of Read/Write answer tapes (deviation-bounded) on the real encrypt/decrypt loops",
+            "stateless exhaustive exploration of Read/Write answer tapes (deviation-bounded) on the real encrypt/decrypt loops Plus CLI round trips (files and pipes, three key pairs incl. self, lengths 0/1/1000/cs/cs+1, output paths fresh or already holding longer files, keyring with case/prefix decoy names).",
             "Every partition of every plaintext length 0..3*cs+1 into reads (exhaustive, chunk sizes 1..4/5 through the hooked loops) "
             "and every short-read/short-write schedule within the stated budgets at production size through key_encrypt/key_decrypt "
             "is executed; each execution must round-trip exactly and name the sender. Exploration level: the schedule space is "
@@ -17,14 +17,14 @@ CHECKS = {
             "Keys/plaintext bytes from seed-derived alphabets; lengths beyond 3*cs+1 by the periodicity argument in DESIGN.md; REF (OpenSSL) is used as a cross-check reader.",
             "DESIGN.md §6 C01"),
     "C02": ("exploration", "E-ENV",
-            "stateless exhaustive exploration of Read/Write answer tapes on the chunk loops with the password-mode AAD; exhaustive password-pair grid through the public API and the CLI",
+            "stateless exhaustive exploration of Read/Write answer tapes on the chunk loops with the password-mode AAD; exhaustive password-pair grid through the public API and the CLI The pair grid runs for a 30-byte and for the empty plaintext; CLI round trips into fresh and pre-existing longer output files.",
             "Tiny scope as C01 with AAD = magic (every read partition, bounded write partitions, both loops) plus mismatched key/AAD combinations (must reject and release nothing); "
             "all ordered pairs of a 12-word byte-string password alphabet x salts through pass_encrypt/pass_decrypt (same => exact round trip, different => Err and zero bytes released); "
             "lengths x bounded short-I/O schedules through the public API; all ordered pairs of a 12-word UTF-8 alphabet through `kestrel password encrypt|decrypt --env-pass`.",
             "Password/plaintext values from fixed alphabets; the four HMAC-equivalent password pairs are a recorded known finding (KNOWN_FINDINGS.txt).",
             "DESIGN.md §6 C02"),
     "C03": ("model_checking", "E-GRAPH",
-            "explicit-state breadth-first search (stateright) over ciphertext edits with the real decryptor run in every state, plus deviation-bounded words of REF-minted records",
+            "explicit-state breadth-first search (stateright) over ciphertext edits with the real decryptor run in every state, plus deviation-bounded words of REF-minted records Also: fabricated zero-length records, corpora whose final chunk is exactly chunk-size, a 2x64 KiB production file with every kind of extension, and a CLI level (13 authentic/edited variants x {key, password} x {-o fresh, -o pre-existing longer file, stdout}).",
             "States are byte strings reachable from REF-written authentic files (key mode, password mode, hooked loop) by <=2 (quick) / <=3 (thorough) "
             "edits from a ~300-letter alphabet (every bit and every truncation offset at depth 1; splices of records and header fields of other "
             "authentic files, reorder/duplicate/drop, counter/flag/length rewrites, re-framing). In every state the real decryptor runs and its "
@@ -34,14 +34,14 @@ CHECKS = {
             "AEAD/DH unforgeability assumed; corpus values from seed-derived alphabets; edit sequences beyond the depth bound not explored; password mode through the public API only at depth 1 (scrypt cost), deeper through the hooked loop with the magic as AAD.",
             "DESIGN.md §6 C03"),
     "C04": ("model_checking", "E-GRAPH",
-            "same explicit-state edit graph as C03 with a write-log invariant evaluated on the real decryptor in every state; E-ENV fault enumeration on authentic and tampered files",
+            "same explicit-state edit graph as C03 with a write-log invariant evaluated on the real decryptor in every state; E-ENV fault enumeration on authentic and tampered files CLI level: the bytes reaching stdout / the -o file for 8 variants of a 3-chunk file (sender known/unknown, password mode) must be exactly P or exactly the authenticated whole-chunk prefix.",
             "In every state of the C03 graphs (and every minted-record word) the real decryptor writes into a recording sink; each written range must be "
             "authentic plaintext of chunks that are authentic in place and whose whole record had already been consumed, and Ok is allowed only for complete authentic input. "
             "Additionally every fault at every call index (plus bounded short reads/writes) while decrypting 12 authentic/tampered inputs per corpus, same predicate on the offered buffers.",
             "Final-chunk-before-trailing-data order deliberately unconstrained; corpus written by REF; AEAD unforgeability assumed.",
             "DESIGN.md §6 C04"),
     "C05": ("exploration", "E-GRID",
-            "exhaustive enumeration of key-role assignments (real encryptor and an independent REF forger), field mixes and special X25519 encodings",
+            "exhaustive enumeration of key-role assignments (real encryptor and an independent REF forger), field mixes and special X25519 encodings Plus: claimed sender = each small-order point, a keyless reader trying publicly derivable secrets on files made with library-chosen randomness, and a 48-file sequence of auto-keyed encryptions in one thread (no recipient reads another's file).",
             "All 4^4 (private key used, public key claimed, recipient addressed, decrypting key) tuples through the real key_encrypt/key_decrypt; the same tuples through a REF forger "
             "with 9 forging degrees (claimed != used, ss skipped/zero/from e, recipient hashed != used, es/ss to another recipient, ephemeral mismatch); all 2^4 mixes of "
             "(e, enc_s, enc_payload, chunks) from pairs of authentic files; all 52 small-order and non-canonical u-coordinates as recipient of key_encrypt (refused with zero bytes written, "
@@ -49,14 +49,14 @@ CHECKS = {
             "DH hardness assumed; 4-key seed-derived alphabet.",
             "DESIGN.md §6 C05"),
     "C06": ("exploration", "E-GRID",
-            "exhaustive enumeration of (length x read partition x key set) and (length x chunking) products against the executable specification REF, byte for byte",
+            "exhaustive enumeration of (length x read partition x key set) and (length x chunking) products against the executable specification REF, byte for byte Plus passwords at the HMAC block boundary, a recipient key encoded with bit 255 set, and CLI-level password-file conformance in both directions for passwords with blanks and line ends.",
             "Encrypt side: every read partition of every L<=10 (key mode, public API, injected ephemeral/payload key), boundary lengths, password mode, and every "
             "partition in the hooked loop: Rust bytes == REF bytes. Decrypt side: REF-written files for every composition of L<=8 into chunk sizes, mixtures of {1,2,cs-1,cs}, "
             ">=66000 one-byte chunks (counter reaches the third nonce byte on both paths), nonce layout across the 64-bit range, frozen golden files.",
             "REF (OpenSSL-based, self-tested against RFC vectors and the cacophony Noise-X vector) is the meaning of 'documented format'; only two genuine 1.x artefacts exist.",
             "DESIGN.md §6 C06"),
     "C07": ("model_checking", "E-GRAPH",
-            "explicit-state breadth-first search (stateright) over operation histories, each history executed on the real library/CLI; RNG-seam perturbation of every delivered byte; per-file nonce check",
+            "explicit-state breadth-first search (stateright) over operation histories, each history executed on the real library/CLI; RNG-seam perturbation of every delivered byte; per-file nonce check Plus 150/600 rounds of repeated library operations in one thread and the per-file nonce check under every schedule with <=2 interrupted calls.",
             "States are operation histories of length <=2 (quick) / <=3 (thorough) over six randomness-consuming operations with identical inputs (library and CLI); in every state the history "
             "is executed and all fresh values (ephemeral, payload and file keys recovered by REF, salts, generated private keys) must be pairwise distinct and differ from given values. "
             "Through the RNG seam every byte of the CSPRNG stream is perturbed: outputs are a deterministic function of the stream and each fresh field depends on >=32 stream positions. "
@@ -72,7 +72,7 @@ CHECKS = {
             "Identity values from a seed-derived alphabet; names >= 12 bytes so chance occurrences in ciphertext are negligible (< 2^-70).",
             "DESIGN.md §6 C08"),
     "C09": ("exploration", "E-GRID",
-            "exhaustive enumeration per untrusted-input surface, heap accounting on hostile header fields, and exhaustive enumeration of CLI argument vectors as real processes",
+            "exhaustive enumeration per untrusted-input surface, heap accounting on hostile header fields, and exhaustive enumeration of CLI argument vectors as real processes Plus authentic handshakes with every payload length 0..80, handshakes carrying each special X25519 point as ephemeral or sender key, and the full product of value classes per CLI argument slot (4 952 vectors in quick).",
             "Every byte string of length <=2 and every prefix of authentic files (both decrypt entry points), every message length 0..200/65535/65536/70000 for noise_decrypt, every length 0..80 for "
             "the AEAD wrappers, every length 0..130 x character class plus single-character substitutions and insertions for encoded keys, every single-bit and boundary value of each chunk-header "
             "field and every header bit under a counting allocator (peak heap below a fixed cap; exactly one 32 MiB scrypt allocation in password mode), and every argument vector of length <=3 "
@@ -88,7 +88,7 @@ CHECKS = {
             "At most one hard fault per execution; data values from seed-derived alphabets; CLI cases use the real CSPRNG so only verdicts (not bytes) are compared.",
             "DESIGN.md §6 C10"),
     "C11": ("exploration", "E-GRID",
-            "exhaustive enumeration of a size x direction x mode x read-schedule grid under a counting allocator with read/write lag monitors; CLI streams with RSS from wait4",
+            "exhaustive enumeration of a size x direction x mode x read-schedule grid under a counting allocator with read/write lag monitors; CLI streams with RSS from wait4 Plus trailing garbage up to 16/128 MiB after a valid stream (same peak heap), FIFO given as FILE argument, and a non-blocking stdout pipe with a stalled reader.",
             "Both directions x {chunk loop, key mode, password mode} x sizes n*64KiB+d (n up to 64; thorough 1024 and 16384 = 1 GiB) x {64 KiB, 1 KiB} pieces from non-allocating synthetic sources into "
             "parsing/counting sinks: peak live heap must be identical (+-4 KiB) for all sizes >= 2 chunks and below a fixed cap, and every chunk's output must complete before more than two further "
             "chunks of input were consumed (measured in chunks of the actual stream and in bytes). CLI: all four streaming commands fed 8/64 MiB (thorough up to 256 MiB) through stdin with a short first "
@@ -97,15 +97,15 @@ CHECKS = {
             "DESIGN.md §6 C11"),
     "C12": ("exploration", "E-PROC",
             "exhaustive product of logical cases x 64 I/O/option wirings of the real CLI with a reference model and a differential oracle across wirings",
-            "27 logical cases (valid/invalid inputs for decrypt, encrypt, password encrypt/decrypt; keyrings with the sender first/last/absent and decoy entries sharing 24-character key prefixes/suffixes "
+            "33 logical cases (valid/invalid inputs for decrypt, encrypt, password encrypt/decrypt; keyrings with the sender first/last/absent and decoy entries sharing 24-character key prefixes/suffixes "
             "and name prefixes/extensions/case variants) x the full product {file argument|stdin} x {-o|stdout} x {-k|KESTREL_KEYRING} x {long|short options} x {command|alias} x {options before|after}: "
             "exit 0 iff the reference CLI model says the operation completes; plaintext compared byte for byte; produced files validated by REF; the sender line must name exactly the entry whose key equals "
-            "REF's sender key or report it unknown with its encoding; all wirings of a case must agree; plus output files under a size limit (short write then EFBIG) where exit 0 would be untruthful.",
-            "Terminal-attached branches (isatty) are not covered: no pty is used.",
+            "REF's sender key or report it unknown with its encoding; all wirings of a case must agree; plus extra wirings per case: output under a size limit, -o path already holding a longer file, FILE being a FIFO or named like a command alias, and five pseudo-terminal wirings with the password typed.",
+            "Terminal-attached branches are exercised through a pseudo-terminal, not a real terminal emulator.",
             "DESIGN.md §6 C12"),
     "C13": ("fault_enumeration", "E-PROC",
-            "exhaustive product of commands x failure causes x prior state of the output path on the real CLI, comparing the path before and after",
-            "75 (command, failure cause) cases over encrypt, decrypt, password encrypt, password decrypt and key generate — bad arguments, missing input, missing/absent/malformed keyring, unknown name, "
+            "exhaustive product of commands x failure causes x prior state of the output path on the real CLI, comparing the path before and after Plus 17-chunk (>1 MiB) files failing in chunk 10, password lines on a stdin pipe without --env-pass, and later-chunk failures with the password typed at a pseudo-terminal.",
+            "85 (command, failure cause) cases over encrypt, decrypt, password encrypt, password decrypt and key generate — bad arguments, missing input, missing/absent/malformed keyring, unknown name, "
             "missing private key, wrong password, unset password variable, no password source, wrong magic, corrupted header fields, corrupted/truncated first chunk, empty input, low-order recipient, "
             "output path equal to input path, wrong-mode file — x {path absent, path present with 200000 sentinel bytes}: exit 1, path untouched. Later-chunk failures (corrupt chunk 2/3, truncation in chunk 3, "
             "trailing data): exit 1 and the path holds exactly the authenticated prefix.",
@@ -120,7 +120,7 @@ CHECKS = {
             "Real CSPRNG in the CLI: bytes differ between runs, verdicts may not (re-executed once before reporting).",
             "DESIGN.md §6 C14"),
     "C15": ("exploration", "E-GRID",
-            "exhaustive enumeration of (key x password x salt), password pairs, all 672 single-bit changes and string shapes against the REF implementation of the documented locked-key format",
+            "exhaustive enumeration of (key x password x salt), password pairs, all 672 single-bit changes and string shapes against the REF implementation of the documented locked-key format CLI level: `key extract-pub` for all ordered pairs of a 14-word UTF-8 password alphabet and `key change-pass` to each of its words (result must unlock under REF with exactly that password).",
             "lock_private_key/unlock_private_key compiled from the working tree: Rust lock == REF lock byte for byte; round trip both ways between Rust and REF (incl. non-clamped keys); "
             "all ordered password pairs reject; every single-bit change of the 84-byte blob rejects; every string length 0..130 and every single-character substitution from a class alphabet "
             "is rejected or agrees with REF, without panic.",
@@ -135,7 +135,7 @@ CHECKS = {
             "Real CSPRNG in the CLI (verdict re-checked once); REF implements the documented locked-key format.",
             "DESIGN.md §6 C16"),
     "C17": ("exploration", "E-GRID",
-            "exhaustive enumeration of line-token sequences, decorated lines, line-shape grid, tool-written names and key strings against a reference reading of the keyring format",
+            "exhaustive enumeration of line-token sequences, decorated lines, line-shape grid, tool-written names and key strings against a reference reading of the keyring format Plus every sequence of <=4/5 complete sections over a 12-section alphabet (non-adjacent duplicates, bad-checksum copies, case variants) and names typed at `kestrel key generate` reading back as written.",
             "Every sequence of <=6 (quick) / <=7 (thorough) lines over a 14-token alphabet, every sequence of <=3/4 decorated lines, a single-line shape grid (every ASCII length 0..140 followed by "
             "multi-byte characters, in every line role), the serialize->parse round trip for every name of <=3 characters over a 9-character alphabet plus boundary lengths, and every "
             "single-character substitution / checksum perturbation of encoded public keys: the real parser (compiled from the working tree) must never crash, must reject texts that "
@@ -143,21 +143,21 @@ CHECKS = {
             "Texts using constructs the statement leaves open (duplicate field in a section, field outside a section, junk, no section) are only checked for 'no crash'.",
             "DESIGN.md §6 C17"),
     "C18": ("exploration", "E-GRID",
-            "exhaustive enumeration of the scrypt parameter grid and axes against OpenSSL, through the library and through the exported C function with guard bytes",
+            "exhaustive enumeration of the scrypt parameter grid and axes against OpenSSL, through the library and through the exported C function with guard bytes Plus every output-buffer alignment mod 8, all ordered pairs of 12 tuples called consecutively on one thread, and output buffers aliasing an input.",
             "Full product N in 2..2^9/2^10 x r 1..8 x p 1..4 x 8 output lengths, every axis swept alone (N to 2^15, r to 16, p to 8, dkLen 1..200), corner tuples, a 12x12 password/salt length grid "
             "with trailing-NUL variants; every tuple through kestrel_crypto::scrypt and (all in thorough, the cheap ones plus (2^15,8,1) in quick) through the cdylib's `scrypt` symbol loaded with dlopen, "
             "output and input buffers surrounded by guard bytes.",
             "OpenSSL EVP_PBE_scrypt is the RFC 7914 reference; byte values from seed-derived alphabets; N <= 2^15.",
             "DESIGN.md §6 C18"),
     "C19": ("exploration", "E-GRID",
-            "exhaustive enumeration of input-shape grids against an OpenSSL reference model",
+            "exhaustive enumeration of input-shape grids against an OpenSSL reference model Plus AEAD bodies up to 70 000 B / 1 MiB and sequences of scalars related by the clamping bits.",
             "Every point of the stated length/shape grids (AEAD 0..130 x 0..40, every single-bit alteration, all short inputs, "
             "all special X25519 points x scalars, HKDF lengths 1..8160, HMAC/SHA-256 lengths 0..200, Noise counters across the "
             "64-bit range) is executed on the real functions and compared with OpenSSL; nothing is sampled.",
             "Data values come from seed-derived alphabets; OpenSSL libcrypto is trusted as the RFC reference; arithmetic is orion's.",
             "DESIGN.md §6 C19"),
     "C20": ("model_checking", "E-GRAPH",
-            "explicit-state breadth-first search (stateright) over construct/clone/drop programs, each executed on the real containers under an inspecting allocator",
+            "explicit-state breadth-first search (stateright) over construct/clone/drop programs, each executed on the real containers under an inspecting allocator Operations also include clone_from and a PayloadKey at an odd address; a labelled sampling pass drops original and clone concurrently on two threads (supplementary).",
             "States are programs of <=4 (quick) / <=5 (thorough) operations on 3 slots from {PrivateKey::try_from, PrivateKey::generate, PayloadKey::new, clone, drop, drop during panic unwinding, "
             "pass to noise_encrypt} over two key values (one containing zero bytes). Every program is executed from scratch; the global allocator copies the 32 watched bytes of each instance at the "
             "moment their heap block is deallocated: they must be all zero, one release per dropped instance, and live instances keep their bytes.",
